@@ -4,6 +4,7 @@ import Bmc.Proofs.C05.Sess
 import Bmc.Proofs.C05.Sdr
 import Bmc.Proofs.C05.Setup
 import Bmc.Proofs.C05.Dcmi
+import Bmc.Proofs.C05.Calls
 #print axioms Bmc.Proofs.C05.deviceID_total
 #print axioms Bmc.Proofs.C05.deviceID_safe
 #print axioms Bmc.Proofs.C05.chassis_total
@@ -57,3 +58,14 @@ import Bmc.Proofs.C05.Dcmi
 #print axioms Bmc.Proofs.C05.powerReading_safe
 #print axioms Bmc.Proofs.C05.sensorInfo_total
 #print axioms Bmc.Proofs.C05.sensorInfo_safe
+#print axioms Bmc.Proofs.C05.not_bad_cases
+#print axioms Bmc.Proofs.C05.slChain_total
+#print axioms Bmc.Proofs.C05.sessionless_call_total
+#print axioms Bmc.Proofs.C05.deserialiseAlg_safe
+#print axioms Bmc.Proofs.C05.bind_safe
+#print axioms Bmc.Proofs.C05.hsOpenSessionRsp_safe
+#print axioms Bmc.Proofs.C05.hsRakp4_safe
+#print axioms Bmc.Proofs.C05.payloadReply_total
+#print axioms Bmc.Proofs.C05.exchange_total
+#print axioms Bmc.Proofs.C05.exchangePayload_total
+#print axioms Bmc.Proofs.C05.handshake_total
